@@ -516,11 +516,10 @@ def pyref(t):
         if op in ("div", "mod"):
             if vb == 0:
                 raise Fault("division_by_zero")
-            if va == -(1 << (n - 1)) and vb == -1:
-                raise Trap("int_min/-1")
+            # MIN / -1 wraps around like every other integer operation, MIN % -1 is 0
             q = abs(va) // abs(vb)
             q = -q if (va < 0) != (vb < 0) else q
-            return (j, q if op == "div" else va - q * vb)
+            return (j, wrap(n, q) if op == "div" else va - q * vb)
         if op in CMP:
             return ("b", int({"lt": va < vb, "gt": va > vb, "lte": va <= vb, "gte": va >= vb,
                               "eq": va == vb, "neq": va != vb}[op]))
